@@ -9,6 +9,8 @@ import (
 	"fmt"
 	"go/token"
 	"go/types"
+	"os"
+	"regexp"
 	"sort"
 	"strings"
 	"sync"
@@ -17,9 +19,9 @@ import (
 )
 
 type Heap struct {
-	m     map[string]string // component -> current version term
-	epoch int               // bumped by a havoc-everything
-	formal map[string]bool  // non-nil: a formal heap (parameters of a recursive spec function); records the components read
+	m      map[string]string // component -> current version term
+	epoch  int               // bumped by a havoc-everything
+	formal map[string]bool   // non-nil: a formal heap (parameters of a recursive spec function); records the components read
 }
 
 func (h *Heap) clone() *Heap {
@@ -38,16 +40,16 @@ type pathSel struct {
 }
 
 type Addr struct {
-	comp string
-	kind byte   // 'f' field of object ref, 'e' slice/array element, 'c' cell, 'g' global scalar
-	ref  string // object ref / array id / cell ref
-	idx  string // element index relative to off (kind 'e')
-	off  string // slice offset (kind 'e')
-	top  Sort   // sort of the value stored directly in the component
-	topT types.Type
-	path []pathSel
-	typ  types.Type // type of the addressed location
-	fresh bool      // base object allocated in this function
+	comp  string
+	kind  byte   // 'f' field of object ref, 'e' slice/array element, 'c' cell, 'g' global scalar
+	ref   string // object ref / array id / cell ref
+	idx   string // element index relative to off (kind 'e')
+	off   string // slice offset (kind 'e')
+	top   Sort   // sort of the value stored directly in the component
+	topT  types.Type
+	path  []pathSel
+	typ   types.Type // type of the addressed location
+	fresh bool       // base object allocated in this function
 }
 
 type Obligation struct {
@@ -60,36 +62,40 @@ type Obligation struct {
 	Pos    token.Position
 	Fn     string
 	Pinned bool
+	Cover  bool // vacuity guard: "proved" means the point is unreachable
 	// results
-	Status  string // proved failed unknown error
-	Solver  string
-	Time    float64
-	Model   string
-	Detail  string
-	Query   string
-	Known   string
+	Status    string // proved failed unknown error
+	Solver    string
+	Time      float64
+	Model     string
+	Detail    string
+	Query     string
+	Known     string
 	Candidate bool // the model comes from the quantifier-free relaxation
-	Block   *ssa.BasicBlock
-	Splits  []string    // case-split hints (Boolean terms defined in the context): tried when the plain query is not decided
-	EnvFn   func() *Env // environment in which a known-finding region is evaluated (loop clauses: iteration start)
+	Block     *ssa.BasicBlock
+	Splits    []string    // case-split hints (Boolean terms defined in the context): tried when the plain query is not decided
+	EnvFn     func() *Env // environment in which a known-finding region is evaluated (loop clauses: iteration start)
 }
 
 type VC struct {
-	prog     *Program
-	u        *Universe
-	fn       *ssa.Function
-	key      string
-	contract *Contract
-	lines    []string
-	obls     []*Obligation
-	compSort map[string]Sort
-	compType map[string]types.Type // Go type of the values stored in the component
-	nver     int
-	nfresh   int
-	vals     map[ssa.Value]Term
-	tuples   map[ssa.Value][]Term
-	addrs    map[ssa.Value]*Addr
-	closures map[ssa.Value]*ssa.MakeClosure
+	covers     []*Obligation
+	droppedInv map[*Clause]bool
+	notes      []string
+	prog       *Program
+	u          *Universe
+	fn         *ssa.Function
+	key        string
+	contract   *Contract
+	lines      []string
+	obls       []*Obligation
+	compSort   map[string]Sort
+	compType   map[string]types.Type // Go type of the values stored in the component
+	nver       int
+	nfresh     int
+	vals       map[ssa.Value]Term
+	tuples     map[ssa.Value][]Term
+	addrs      map[ssa.Value]*Addr
+	closures   map[ssa.Value]*ssa.MakeClosure
 
 	reach    map[*ssa.BasicBlock]string
 	heapOut  map[*ssa.BasicBlock]*Heap
@@ -100,36 +106,36 @@ type VC struct {
 	hdrHeap  map[*ssa.BasicBlock]*Heap // heap at loop head (after havoc)
 	hdrPhi   map[*ssa.BasicBlock]map[*ssa.Phi]Term
 
-	entryHeap *Heap
-	params    map[string]Term
-	panicOK   string // condition (over entry state) under which this function may panic
-	counters  map[string]int
-	nonNil    map[string][]*ssa.BasicBlock
-	unsupported []string
-	assumptions map[string]bool
+	entryHeap         *Heap
+	params            map[string]Term
+	panicOK           string // condition (over entry state) under which this function may panic
+	counters          map[string]int
+	nonNil            map[string][]*ssa.BasicBlock
+	unsupported       []string
+	assumptions       map[string]bool
 	calleesNoContract map[string]bool
-	trusted  map[string]bool
-	curBlock *ssa.BasicBlock
-	curPos   token.Pos
-	mode     string // "full" or "safety"
-	defers   []*ssa.Defer
-	pendingWf [][2]string
-	recDefs  map[string]*recDef
-	mu       sync.Mutex
-	storeHeap *Heap
-	tagBlock *ssa.BasicBlock // while a latch block is executed once per predecessor: that predecessor
-	dupSfx   string
-	dupRet   int
-	fp       string
-	lineTags [][]string // property tags of the contract clause a line was assumed from (nil: structural line)
-	curTags  []string
-	splitTerms []splitTerm
-	panicking string // while a deferred closure is inlined: "true"/"false" - is a panic in flight
-	recoverEdges []recoverEdge
-	lastCallReach string
-	lightMode bool
-	lineBlock []int
-	anc      map[*ssa.BasicBlock]map[int]bool
+	trusted           map[string]bool
+	curBlock          *ssa.BasicBlock
+	curPos            token.Pos
+	mode              string // "full" or "safety"
+	defers            []*ssa.Defer
+	pendingWf         [][2]string
+	recDefs           map[string]*recDef
+	mu                sync.Mutex
+	storeHeap         *Heap
+	tagBlock          *ssa.BasicBlock // while a latch block is executed once per predecessor: that predecessor
+	dupSfx            string
+	dupRet            int
+	fp                string
+	lineTags          [][]string // property tags of the contract clause a line was assumed from (nil: structural line)
+	curTags           []string
+	splitTerms        []splitTerm
+	panicking         string // while a deferred closure is inlined: "true"/"false" - is a panic in flight
+	recoverEdges      []recoverEdge
+	lastCallReach     string
+	lightMode         bool
+	lineBlock         []int
+	anc               map[*ssa.BasicBlock]map[int]bool
 }
 
 func newVC(p *Program, fn *ssa.Function) *VC {
@@ -293,6 +299,12 @@ func (vc *VC) wfAxiom(comp, version, alloc string) string {
 		return ""
 	}
 	s := vc.compSort[comp]
+	if !strings.HasPrefix(comp, "G_") {
+		// rows above the watermark of this version belong to objects allocated later: a component that is
+		// only ever written at objects allocated after this version keeps the version (no havoc), and the
+		// references such objects hold are bounded by later watermarks, not by this one
+		alloc = fmt.Sprintf("(ite (<= r %s) %s 9223372036854775807)", alloc, alloc)
+	}
 	switch {
 	case strings.HasPrefix(comp, "E_"):
 		w := vc.wfOf(app("select", app("select", version, "r"), "j"), t, alloc, 0)
@@ -582,6 +594,17 @@ func (vc *VC) oblige(kind, label string, tags []string, reach, goal, src string)
 	return o
 }
 
+// cover records a program point whose path condition must stay satisfiable together with everything
+// assumed so far (vacuity guard): a point that is provably unreachable makes every obligation behind it
+// hold for no reason.  Covers are not obligations; they are decided separately (coverCheck).
+func (vc *VC) cover(label, reach string) {
+	if reach == "true" {
+		return
+	}
+	o := &Obligation{Name: vc.key + "#cover." + label, Kind: "cover", Prefix: len(vc.lines), Goal: cse(implies(reach, "false")), Fn: vc.key, Block: vc.curBlock, Cover: true}
+	vc.covers = append(vc.covers, o)
+}
+
 func (vc *VC) counter(kind string) int {
 	vc.counters[kind]++
 	return vc.counters[kind]
@@ -662,7 +685,7 @@ func (vc *VC) queryLocked(o *Obligation, produceModel bool) string {
 	}
 	keep := coneOfInfluenceLevel(sel, []string{o.Goal}, vc.lightMode)
 	for i, l := range sel {
-		if keep[i] {
+		if keep[i] || o.Cover || noSlice {
 			b.WriteString(l)
 			b.WriteString("\n")
 		}
@@ -717,6 +740,8 @@ var smtKeywords = map[string]bool{"assert": true, "forall": true, "exists": true
 // watermarks and path conditions occur almost everywhere and do not propagate relevance; dropping
 // an assumption is always sound.
 var aggressiveSlice = false
+var orderFactRe = regexp.MustCompile(`^\(assert \(>=? ([^\s()]+) ([^\s()]+)\)\)$`)
+var noSlice = os.Getenv("GOVC_NOSLICE") != ""
 
 func isHub2(sym string) bool {
 	return isHubSymbol(sym) || strings.HasPrefix(sym, "p_") || strings.HasPrefix(sym, "fv_")
@@ -764,6 +789,10 @@ func coneOfInfluenceLevel(lines []string, goals []string, aggressive bool) []boo
 			take := false
 			if defs[i] != "" {
 				take = rel[defs[i]]
+			} else if m := orderFactRe.FindStringSubmatch(lines[i]); m != nil {
+				// an ordering fact between two watermarks / references (x >= y): relevant as soon as the
+				// upper one is (chains of these carry "allocated later than")
+				take = rel[m[1]]
 			} else {
 				nonHub := 0
 				for k := range syms[i] {
